@@ -54,3 +54,18 @@ Print Assumptions C03_future_nonce_rejected.
 Theorem C03_foreign_nonce_rejected : forall s, nonce_valid s NonceForeign = false.
 Proof. reflexivity. Qed.
 Print Assumptions C03_foreign_nonce_rejected.
+
+(* ---------- history level ---------- *)
+From Turn Require Import Common RelayCheck RelayProps RelayTrace RelayTime RelayTime7 RelayTrace2.
+(* The predicate evaluated on the implementation's observed traces (chk_C03: ownership and time taken from the lifecycle
+   callbacks and ticks only; a request that does not authenticate changes nothing and gets exactly one error, 401/438 as
+   challenges; valid credentials of a non-owner change nothing and get no answer) holds on every trace of the model. *)
+Theorem C03_predicate_holds_on_every_model_trace : forall cfg ep h, chk_C03 (model_case cfg ep h) = true.
+Proof. exact chk_C03_on_model. Qed.
+Print Assumptions C03_predicate_holds_on_every_model_trace.
+
+(* every error answer means the request changed nothing *)
+Theorem C03_error_changes_nothing : forall cfg s src tid c r unk s' acts d m t code ch,
+  step cfg s (EReq src tid c r unk) = (s', acts) -> In (Error d m t code ch) acts -> s' = s /\ acts = [Error d m t code ch].
+Proof. exact error_means_unchanged. Qed.
+Print Assumptions C03_error_changes_nothing.
